@@ -515,7 +515,7 @@ def rand_frame(rng):
     return ('T', rng.choice([0, 1, 0xFFFFF8, 0xFFFFFF, 0x800000, rng.randrange(1 << 24)]))
 
 
-def fifo_case(cid, rng, specs, tail, ctor='i2c'):
+def fifo_case(cid, rng, specs, tail, ctor='i2c', pre=None):
     bs = []
     for s in specs:
         bs += enc_frame(s)
@@ -531,7 +531,7 @@ def fifo_case(cid, rng, specs, tail, ctor='i2c'):
     hdr = 'q fifo=%s fspec=%s ftail=%s' % (hexs(buf) if buf else '', '/'.join(spec_tok(s) for s in specs) if specs else '-', tt)
     if not buf:
         hdr = 'q fspec=- ftail=none'
-    return case(cid, ctor, ['rfifo:%d' % len(buf)], hdr)
+    return case(cid, ctor, (pre or []) + ['rfifo:%d' % len(buf)], hdr)
 
 
 def stream_fifo_wf(rng, tier):
@@ -584,7 +584,14 @@ def stream_fifo_wf(rng, tier):
         else:
             f = rand_frame(rng)
             t = ('cut', f, rng.randint(1, len(enc_frame(f)) - 1))
-        out.append(fifo_case('w%d' % n, rng, specs, t, rng.choice(['i2c', 'spi'])))
+        # the parser must not depend on what the driver has recorded about the FIFO configuration
+        pre = None
+        if i % 2 == 1:
+            pre = ['fifo time:%d 8bit:%d axes:%d,%d,%d src:%d stop:%d' % tuple(
+                       [rng.randrange(2), rng.randrange(2), rng.randrange(2), rng.randrange(2), rng.randrange(2), rng.randrange(3),
+                        rng.randrange(2)]),
+                   rand_request(rng, rng.choice(['acc', 'int', 'fifo'])), 'fifo rddis:0']
+        out.append(fifo_case('w%d' % n, rng, specs, t, rng.choice(['i2c', 'spi']), pre))
         n += 1
     return out
 
@@ -1060,4 +1067,8 @@ def stream_ctor_faults(rng):
         for k in range(nraw):
             out.append(case('ef%d' % n, ctor, [], '!%d' % k))
             n += 1
+            # a failing operation AND a wrong chip id: the failure is what must be reported
+            for idv in (0x00, 0x42, 0x91):
+                out.append(case('ef%d' % n, ctor, [], 'low=%02x !%d' % (idv, k)))
+                n += 1
     return out
